@@ -468,6 +468,8 @@ fn run_case(rep: &mut Report, case: u64) {
                     }
                 }
             }
+            // handle uniqueness is C01's statement as much as C10's
+            let uniq_tag: &'static str = if cfg.prop == "C01" { "C01" } else { "C10" };
             rep.bump("creates_observed", created.len() as u64);
             rep.bump("deletes_observed", delete_requested.len() as u64);
             // pairwise distinct handles, distinct from everything seen before, distinct indices among the not-yet-dead
@@ -475,10 +477,10 @@ fn run_case(rep: &mut Report, case: u64) {
             let mut idx: BTreeMap<u32, Entity> = initial.iter().map(|e| (e.id(), *e)).collect();
             for e in &created {
                 if !seen.insert(*e) {
-                    return Err(("C10", format!("handle {:?} was returned twice (to two threads, or it equals an earlier handle)", e)));
+                    return Err((uniq_tag, format!("handle {:?} was returned twice (to two threads, or it equals an earlier handle)", e)));
                 }
                 if let Some(o) = idx.insert(e.id(), *e) {
-                    return Err(("C10", format!("two entities that are not yet dead share index {}: {:?} and {:?}", e.id(), o, e)));
+                    return Err((uniq_tag, format!("two entities that are not yet dead share index {}: {:?} and {:?}", e.id(), o, e)));
                 }
             }
             // C17 under concurrency: a never-used index may only be taken once the free list is exhausted,
